@@ -1,5 +1,5 @@
 (* Proofs about the tile creation protocol model Creator.v (C08). *)
-From Coq Require Import ZArith List Bool Arith Lia.
+From Coq Require Import ZArith List Bool Arith Lia FinFun.
 Import ListNotations.
 From MP Require Import Base Creator.
 
@@ -141,17 +141,17 @@ Definition lstep (S : sys) (p : nat) (c : list (coord * Z)) (l : list (coord * n
     match lookup l (o_key S m) with
     | Some _ => (c, l, f, pr, OLock (o_key S m) false)
     | None => (c, (o_key S m, p) :: l, f,
-               with_pc pr (if o_recheck S then Recheck m (o_members S m) rest else Fetch m rest),
+               with_pc pr (if o_recheck S then Recheck m (o_members S m) rest else Fetch m (queries S m) rest),
                OLock (o_key S m) true)
     end
   | Recheck m [] rest => (c, l, f, with_pc pr (if o_single S then LoadUnder m rest else Unlock m true rest), OSilent)
   | Recheck m (t :: todo) rest =>
     if cached c t then (c, l, f, with_pc pr (Recheck m todo rest), ORead t true)
-    else (c, l, f, with_pc pr (Fetch m rest), ORead t false)
-  | Fetch m rest =>
-    (c, l, m :: f,
-     with_src pr (Store m (o_members S m) rest) (map (fun t => (t, Some (o_up S t))) (o_members S m) ++ p_src pr),
-     OFetch m)
+    else (c, l, f, with_pc pr (Fetch m (queries S m) rest), ORead t false)
+  | Fetch m (q :: qs) rest => (c, l, q :: f, with_pc pr (Fetch m qs rest), OFetch q)
+  | Fetch m [] rest =>
+    (c, l, f, with_src pr (Store m (o_members S m) rest) (map (fun t => (t, Some (o_up S t))) (o_members S m) ++ p_src pr),
+     OSilent)
   | Store m [] rest => (c, l, f, with_pc pr (Unlock m false rest), OSilent)
   | Store m (t :: todo) rest => ((t, o_up S t) :: c, l, f, with_pc pr (Store m todo rest), OWrite t (o_up S t))
   | LoadUnder m rest =>
@@ -174,7 +174,7 @@ Lemma step_lstep S s p pr :
 Proof.
   intros H. unfold step, lstep. rewrite H. destruct s as [c l f ps]. cbn [cache locks fetched procs] in *.
   unfold set_proc. cbn [cache locks fetched procs].
-  destruct (p_pc pr) as [todo|todo|t todo|m rest|m todo rest|m rest|m todo rest|m rest|m a rest|m todo rest|];
+  destruct (p_pc pr) as [todo|todo|t todo|m rest|m todo rest|m todo rest|m todo rest|m rest|m a rest|m todo rest|];
     try destruct todo as [|t' todo]; try reflexivity.
   - destruct (file S c t'); reflexivity.
   - destruct (cached c t'); reflexivity.
@@ -197,7 +197,7 @@ Qed.
 (* the lock held while a requester is in a control state *)
 Definition holds (c : pc) : option coord :=
   match c with
-  | Recheck m _ _ | Fetch m _ | Store m _ _ | LoadUnder m _ | Unlock m _ _ => Some m
+  | Recheck m _ _ | Fetch m _ _ | Store m _ _ | LoadUnder m _ | Unlock m _ _ => Some m
   | _ => None
   end.
 
@@ -224,7 +224,7 @@ Section Proto.
     \/ (exists m, holds (p_pc pr) = Some m /\ l' = remove_key l (o_key S m) /\ holds (p_pc pr') = None).
   Proof.
     unfold lstep.
-    destruct (p_pc pr) as [todo|todo|t todo|m rest|m todo rest|m rest|m todo rest|m rest|m a rest|m todo rest|] eqn:Hpc;
+    destruct (p_pc pr) as [todo|todo|t todo|m rest|m todo rest|m todo rest|m todo rest|m rest|m a rest|m todo rest|] eqn:Hpc;
       try destruct todo as [|t' todo].
     all: try (intros H; injection H as <- <- <- <- <-; left; split; [reflexivity|]; cbn [p_pc with_pc with_src];
               rewrite ?holds_next_unit; try reflexivity).
@@ -299,177 +299,6 @@ Section Proto.
   Definition allc (c : list (coord * Z)) (m : coord) : Prop :=
     forall u, In u (o_members S m) -> cached c u = true.
 
-  (* some requester is storing the tiles of unit m: what it has already stored is in the cache *)
-  Definition storing (s : state) (m : coord) : Prop :=
-    exists p pr todo rest, nth_error (procs s) p = Some pr /\ p_pc pr = Store m todo rest /\
-      forall u, In u (o_members S m) -> ~ In u todo -> cached (cache s) u = true.
-
-  Record FetchInv (s : state) : Prop := mk_FetchInv {
-    fi_nodup : NoDup (fetched s);
-    fi_done : forall m, In m (fetched s) -> allc (cache s) m \/ storing s m;
-    fi_fetch : forall p pr m rest, nth_error (procs s) p = Some pr -> p_pc pr = Fetch m rest -> ~ In m (fetched s);
-    fi_recheck : forall p pr m todo rest, nth_error (procs s) p = Some pr -> p_pc pr = Recheck m todo rest ->
-                                          incl todo (o_members S m)
-  }.
-
-  Definition is_store (c : pc) : bool := match c with Store _ _ _ => true | _ => false end.
-  Definition is_fetch (c : pc) : bool := match c with Fetch _ _ => true | _ => false end.
-  Definition is_recheck (c : pc) : bool := match c with Recheck _ _ _ => true | _ => false end.
-
-  Lemma is_next_unit rest : is_store (next_unit rest) = false /\ is_fetch (next_unit rest) = false /\ is_recheck (next_unit rest) = false.
-  Proof. destruct rest; auto. Qed.
-
-  (* steps that neither write the cache, nor call the upstream, nor enter / leave Store, Fetch, Recheck *)
-  Lemma fetch_inv_frame s p pr pr' l' :
-    LockInv s -> FetchInv s -> nth_error (procs s) p = Some pr ->
-    is_store (p_pc pr) = false -> is_store (p_pc pr') = false -> is_fetch (p_pc pr') = false ->
-    (forall m todo rest, p_pc pr' = Recheck m todo rest -> incl todo (o_members S m)) ->
-    FetchInv (mk_state (cache s) l' (fetched s) (set_nth (procs s) p pr')).
-  Proof.
-    intros HL HF Hp Hs Hs' Hf' Hr'.
-    assert (Hnth : forall q, nth_error (set_nth (procs s) p pr') q = if Nat.eqb q p then Some pr' else nth_error (procs s) q).
-    { intros q. destruct (Nat.eqb_spec q p) as [->|Hn]; [eapply nth_set_nth_eq; exact Hp | apply nth_set_nth_neq; congruence]. }
-    constructor; cbn [fetched cache procs].
-    - apply (fi_nodup _ HF).
-    - intros m Hm. destruct (fi_done _ HF m Hm) as [H|[q [prq [todo [rest [Hq [Hpc Hc]]]]]]]; [left; exact H|].
-      right. exists q, prq, todo, rest. cbn [procs cache]. rewrite Hnth.
-      destruct (Nat.eqb_spec q p) as [->|Hn]; [|auto]. rewrite Hp in Hq. injection Hq as <-. rewrite Hpc in Hs. discriminate.
-    - intros q prq m rest Hq Hpc. rewrite Hnth in Hq. destruct (Nat.eqb_spec q p) as [->|Hn].
-      + injection Hq as <-. rewrite Hpc in Hf'. discriminate.
-      + eapply (fi_fetch _ HF); eassumption.
-    - intros q prq m todo rest Hq Hpc. rewrite Hnth in Hq. destruct (Nat.eqb_spec q p) as [->|Hn].
-      + injection Hq as <-. eapply Hr'; eassumption.
-      + eapply (fi_recheck _ HF); eassumption.
-  Qed.
-
-  Lemma next_unit_store rest : is_store (next_unit rest) = false.
-  Proof. destruct rest; reflexivity. Qed.
-  Lemma next_unit_fetch rest : is_fetch (next_unit rest) = false.
-  Proof. destruct rest; reflexivity. Qed.
-  Lemma next_unit_recheck rest m todo r : next_unit rest = Recheck m todo r -> False.
-  Proof. destruct rest; discriminate. Qed.
-
-  Lemma fetch_inv_step s p : LockInv s -> FetchInv s -> FetchInv (fst (step S s p)).
-  Proof.
-    intros HL HF. destruct (nth_error (procs s) p) as [pr|] eqn:Hp; [|rewrite step_none by exact Hp; exact HF].
-    rewrite (step_lstep _ _ _ _ Hp). unfold lstep.
-    assert (Hnth : forall pr' q, nth_error (set_nth (procs s) p pr') q = if Nat.eqb q p then Some pr' else nth_error (procs s) q).
-    { intros pr' q. destruct (Nat.eqb_spec q p) as [->|Hn]; [eapply nth_set_nth_eq; exact Hp | apply nth_set_nth_neq; congruence]. }
-    destruct (p_pc pr) as [todo|todo|t rtodo|m rest|m todo rest|m rest|m todo rest|m rest|m a rest|m todo rest|] eqn:Hpc;
-      try destruct todo as [|t' todo].
-    - (* Load [] *) cbn [fst]. eapply fetch_inv_frame; eauto; try (rewrite Hpc; reflexivity); cbn; try reflexivity. discriminate.
-    - (* Load *) destruct (file S (cache s) t'); cbn [fst];
-        (eapply fetch_inv_frame; eauto; try (rewrite Hpc; reflexivity); cbn; try reflexivity; discriminate).
-    - (* Check [] *) cbn [fst]. eapply fetch_inv_frame; eauto; try (rewrite Hpc; reflexivity); cbn [p_pc with_pc].
-      + apply next_unit_store. + apply next_unit_fetch. + intros ? ? ? H. exfalso. eapply next_unit_recheck; exact H.
-    - (* Check *) destruct (cached (cache s) t'); cbn [fst].
-      + eapply fetch_inv_frame; eauto; try (rewrite Hpc; reflexivity); cbn [p_pc with_pc];
-          destruct (has_src (p_src pr) t'); try destruct (o_reload S); try reflexivity; discriminate.
-      + eapply fetch_inv_frame; eauto; try (rewrite Hpc; reflexivity); cbn; try reflexivity; discriminate.
-    - (* Reload *) cbn [fst]. eapply fetch_inv_frame; eauto; try (rewrite Hpc; reflexivity); cbn; try reflexivity. discriminate.
-    - (* Lock *) destruct (lookup (locks s) (o_key S m)); cbn [fst].
-      + eapply fetch_inv_frame; eauto; try (rewrite Hpc; reflexivity). rewrite Hpc. discriminate.
-      + rewrite Hrecheck. eapply fetch_inv_frame; eauto; try (rewrite Hpc; reflexivity); cbn; try reflexivity.
-        intros ? ? ? H. injection H as <- <- <-. apply incl_refl.
-    - (* Recheck [] *) cbn [fst]. eapply fetch_inv_frame; eauto; try (rewrite Hpc; reflexivity); cbn [p_pc with_pc];
-        destruct (o_single S); try reflexivity; discriminate.
-    - (* Recheck *) pose proof (fi_recheck _ HF _ _ _ _ _ Hp Hpc) as Hincl.
-      destruct (cached (cache s) t') eqn:Ec; cbn [fst].
-      + eapply fetch_inv_frame; eauto; try (rewrite Hpc; reflexivity); cbn; try reflexivity.
-        intros ? ? ? H. injection H as <- <- <-. intros u Hu. apply Hincl. right. exact Hu.
-      + (* a miss under the lock: nobody has asked the upstream for this unit *)
-        assert (Hnot : ~ In m (fetched s)).
-        { intros Hm. destruct (fi_done _ HF m Hm) as [H|[q [prq [todo' [rest' [Hq [Hpcq _]]]]]]].
-          - rewrite (H t') in Ec; [discriminate | apply Hincl; left; reflexivity].
-          - assert (p = q).
-            { eapply holders_differ; [exact HL | exact Hp | exact Hq | rewrite Hpc; reflexivity | rewrite Hpcq; reflexivity]. }
-            subst q. rewrite Hp in Hq. injection Hq as <-. congruence. }
-        constructor; cbn [fetched cache procs].
-        * apply (fi_nodup _ HF).
-        * intros m' Hm'. destruct (fi_done _ HF m' Hm') as [H|[q [prq [todo' [rest' [Hq [Hpcq Hc]]]]]]]; [left; exact H|].
-          right. exists q, prq, todo', rest'. cbn [procs cache]. rewrite Hnth.
-          destruct (Nat.eqb_spec q p) as [->|Hn]; [|auto]. rewrite Hp in Hq. injection Hq as <-. congruence.
-        * intros q prq m' rest' Hq Hpcq. rewrite Hnth in Hq. destruct (Nat.eqb_spec q p) as [->|Hn].
-          -- injection Hq as <-. cbn in Hpcq. injection Hpcq as <- <-. exact Hnot.
-          -- eapply (fi_fetch _ HF); eassumption.
-        * intros q prq m' todo' rest' Hq Hpcq. rewrite Hnth in Hq. destruct (Nat.eqb_spec q p) as [->|Hn].
-          -- injection Hq as <-. discriminate.
-          -- eapply (fi_recheck _ HF); eassumption.
-    - (* Fetch *) cbn [fst]. pose proof (fi_fetch _ HF _ _ _ _ Hp Hpc) as Hnot.
-      constructor; cbn [fetched cache procs].
-      + constructor; [exact Hnot | apply (fi_nodup _ HF)].
-      + intros m' [<-|Hm'].
-        * right. exists p, (with_src pr (Store m (o_members S m) rest) (map (fun t => (t, Some (o_up S t))) (o_members S m) ++ p_src pr)),
-                 (o_members S m), rest. cbn [procs cache]. rewrite Hnth, Nat.eqb_refl. repeat split. intros u Hu Hnu. contradiction.
-        * destruct (fi_done _ HF m' Hm') as [H|[q [prq [todo' [rest' [Hq [Hpcq Hc]]]]]]]; [left; exact H|].
-          right. exists q, prq, todo', rest'. cbn [procs cache]. rewrite Hnth.
-          destruct (Nat.eqb_spec q p) as [->|Hn]; [|auto]. rewrite Hp in Hq. injection Hq as <-. congruence.
-      + intros q prq m' rest' Hq Hpcq. rewrite Hnth in Hq. destruct (Nat.eqb_spec q p) as [->|Hn].
-        * injection Hq as <-. discriminate.
-        * intros [<-|Hin]; [|eapply (fi_fetch _ HF); eassumption].
-          apply Hn. symmetry. eapply holders_differ; [exact HL | exact Hp | exact Hq | rewrite Hpc; reflexivity | rewrite Hpcq; reflexivity].
-      + intros q prq m' todo' rest' Hq Hpcq. rewrite Hnth in Hq. destruct (Nat.eqb_spec q p) as [->|Hn].
-        * injection Hq as <-. discriminate.
-        * eapply (fi_recheck _ HF); eassumption.
-    - (* Store [] *) cbn [fst]. constructor; cbn [fetched cache procs].
-      + apply (fi_nodup _ HF).
-      + intros m' Hm'. destruct (fi_done _ HF m' Hm') as [H|[q [prq [todo' [rest' [Hq [Hpcq Hc]]]]]]]; [left; exact H|].
-        destruct (Nat.eq_dec q p) as [->|Hn].
-        * left. rewrite Hp in Hq. injection Hq as <-. rewrite Hpc in Hpcq. injection Hpcq as <- <- <-.
-          intros u Hu. apply Hc; [exact Hu | intros []].
-        * right. exists q, prq, todo', rest'. cbn [procs cache]. rewrite Hnth. destruct (Nat.eqb_spec q p); [contradiction | auto].
-      + intros q prq m' rest' Hq Hpcq. rewrite Hnth in Hq. destruct (Nat.eqb_spec q p) as [->|Hn].
-        * injection Hq as <-. discriminate.
-        * eapply (fi_fetch _ HF); eassumption.
-      + intros q prq m' todo' rest' Hq Hpcq. rewrite Hnth in Hq. destruct (Nat.eqb_spec q p) as [->|Hn].
-        * injection Hq as <-. discriminate.
-        * eapply (fi_recheck _ HF); eassumption.
-    - (* Store *) cbn [fst]. constructor; cbn [fetched cache procs].
-      + apply (fi_nodup _ HF).
-      + intros m' Hm'. destruct (fi_done _ HF m' Hm') as [H|[q [prq [todo' [rest' [Hq [Hpcq Hc]]]]]]].
-        * left. intros u Hu. apply cached_cons. apply H. exact Hu.
-        * right. destruct (Nat.eq_dec q p) as [->|Hn].
-          -- rewrite Hp in Hq. injection Hq as <-. rewrite Hpc in Hpcq. injection Hpcq as <- <- <-.
-             exists p, (with_pc pr (Store m todo rest)), todo, rest. cbn [procs cache]. rewrite Hnth, Nat.eqb_refl.
-             repeat split. intros u Hu Hnu. destruct (coord_eq_dec t' u) as [->|Hne]; [apply cached_cons_eq|].
-             apply cached_cons. apply Hc; [exact Hu|]. intros [H|H]; [contradiction | contradiction].
-          -- exists q, prq, todo', rest'. cbn [procs cache]. rewrite Hnth. destruct (Nat.eqb_spec q p); [contradiction|].
-             repeat split; try assumption. intros u Hu Hnu. apply cached_cons. apply Hc; assumption.
-      + intros q prq m' rest' Hq Hpcq. rewrite Hnth in Hq. destruct (Nat.eqb_spec q p) as [->|Hn].
-        * injection Hq as <-. discriminate.
-        * eapply (fi_fetch _ HF); eassumption.
-      + intros q prq m' todo' rest' Hq Hpcq. rewrite Hnth in Hq. destruct (Nat.eqb_spec q p) as [->|Hn].
-        * injection Hq as <-. discriminate.
-        * eapply (fi_recheck _ HF); eassumption.
-    - (* LoadUnder *) destruct (has_src (p_src pr) m); cbn [fst];
-        (eapply fetch_inv_frame; eauto; try (rewrite Hpc; reflexivity); cbn; try reflexivity; discriminate).
-    - (* Unlock *) cbn [fst]. eapply fetch_inv_frame; eauto; try (rewrite Hpc; reflexivity); cbn [p_pc with_pc]; destruct a;
-        try reflexivity; try discriminate; try apply next_unit_store; try apply next_unit_fetch.
-      intros ? ? ? H. exfalso. eapply next_unit_recheck; exact H.
-    - (* LoadAfter [] *) cbn [fst]. eapply fetch_inv_frame; eauto; try (rewrite Hpc; reflexivity); cbn [p_pc with_pc].
-      + apply next_unit_store. + apply next_unit_fetch. + intros ? ? ? H. exfalso. eapply next_unit_recheck; exact H.
-    - (* LoadAfter *) cbn [fst]. eapply fetch_inv_frame; eauto; try (rewrite Hpc; reflexivity); cbn; try reflexivity. discriminate.
-    - (* Done *) cbn [fst]. rewrite (set_nth_same _ _ _ Hp). destruct s; exact HF.
-  Qed.
-
-  Lemma fetch_inv_init c0 reqs : FetchInv (init c0 reqs).
-  Proof.
-    constructor; cbn [init fetched procs cache].
-    - constructor.
-    - intros m [].
-    - intros p pr m rest Hp Hpc. apply nth_error_In in Hp. apply in_map_iff in Hp. destruct Hp as [r [<- _]]. discriminate.
-    - intros p pr m todo rest Hp Hpc. apply nth_error_In in Hp. apply in_map_iff in Hp. destruct Hp as [r [<- _]]. discriminate.
-  Qed.
-
-  Lemma one_fetch_per_unit c0 reqs sched : NoDup (fetched (run S (init c0 reqs) sched)).
-  Proof.
-    assert (H : LockInv (run S (init c0 reqs) sched) /\ FetchInv (run S (init c0 reqs) sched)).
-    { apply (run_inv S (fun s => LockInv s /\ FetchInv s)).
-      - intros s p [HL HF]. split; [apply lock_inv_step; exact HL | apply fetch_inv_step; assumption].
-      - split; [apply lock_inv_init | apply fetch_inv_init]. }
-    apply (fi_nodup _ (proj2 H)).
-  Qed.
-
   (* ---------------------------------------------------------------- what each requester knows *)
 
   Variable c0 : list (coord * Z).
@@ -503,12 +332,15 @@ Section Proto.
     | Check todo => incl todo req /\ forall r, In r req -> G c src r \/ In r todo \/ In r unc
     | Reload t todo => In t req /\ incl todo req /\ cached c t = true /\
                        forall r, In r req -> G c src r \/ r = t \/ In r todo \/ In r unc
-    | Lock m rest | Fetch m rest => units_ok unc (m :: rest) /\ todo_units c req src m rest
+    | Lock m rest => units_ok unc (m :: rest) /\ todo_units c req src m rest
+    | Fetch m qs rest =>
+      units_ok unc (m :: rest) /\ incl qs (queries S m) /\ (forall q, In q (queries S m) -> ~ In q qs -> In q f) /\
+      todo_units c req src m rest
     | Recheck m todo rest =>
       units_ok unc (m :: rest) /\ (forall u, In u (o_members S m) -> ~ In u todo -> cached c u = true) /\
       todo_units c req src m rest
     | Store m todo rest =>
-      units_ok unc (m :: rest) /\ incl todo (o_members S m) /\ In m f /\
+      units_ok unc (m :: rest) /\ incl todo (o_members S m) /\ (forall q, In q (queries S m) -> In q f) /\
       forall r, In r req -> G c src r \/ (has_src src r = true /\ In r todo) \/ In (o_main S r) rest
     | LoadUnder m rest => o_single S = true /\ units_ok unc (m :: rest) /\ allc c m /\ todo_units c req src m rest
     | Unlock m after rest =>
@@ -535,7 +367,7 @@ Section Proto.
   Proof.
     intros Hm Hf [H1 [H2 [H3 H4]]]. split; [exact H1|]. split; [exact H2|]. split; [exact H3|].
     unfold PIpc, todo_units, allc in *.
-    destruct (p_pc pr) as [todo|todo|t rtodo|m rest|m todo rest|m rest|m todo rest|m rest|m a rest|m todo rest|].
+    destruct (p_pc pr) as [todo|todo|t rtodo|m rest|m todo rest|m todo rest|m todo rest|m rest|m a rest|m todo rest|].
     - intros r Hr Hs. destruct (H4 r Hr Hs); auto.
     - destruct H4 as [Hi H4]. split; [exact Hi|]. intros r Hr. destruct (H4 r Hr) as [H|H]; [left; eapply G_mono; eauto | right; exact H].
     - destruct H4 as [Ht [Hi [Hc H4]]]. repeat split; auto. intros r Hr.
@@ -544,9 +376,9 @@ Section Proto.
       destruct (H4 r Hr) as [H|H]; [left; eapply G_mono; eauto | right; exact H].
     - destruct H4 as [Hu [Hc H4]]. repeat split; auto. intros r Hr.
       destruct (H4 r Hr) as [H|H]; [left; eapply G_mono; eauto | right; exact H].
-    - destruct H4 as [Hu H4]. split; [exact Hu|]. intros r Hr.
+    - destruct H4 as [Hu [Hi [Hq H4]]]. split; [exact Hu|]. split; [exact Hi|]. split; [intros q H5 H6; apply Hf; auto|]. intros r Hr.
       destruct (H4 r Hr) as [H|H]; [left; eapply G_mono; eauto | right; exact H].
-    - destruct H4 as [Hu [Hi [Hin H4]]]. repeat split; auto. intros r Hr.
+    - destruct H4 as [Hu [Hi [Hin H4]]]. split; [exact Hu|]. split; [exact Hi|]. split; [intros q H5; apply Hf; auto|]. intros r Hr.
       destruct (H4 r Hr) as [H|H]; [left; eapply G_mono; eauto | right; exact H].
     - destruct H4 as [Hsg [Hu [Hc H4]]]. repeat split; auto. intros r Hr.
       destruct (H4 r Hr) as [H|H]; [left; eapply G_mono; eauto | right; exact H].
@@ -646,7 +478,7 @@ Section Proto.
   Proof.
     intros Hok H0 HPI E. unfold PI in *. destruct pr as [k req src unc]. cbn [p_pc p_req p_src p_unc with_pc with_src] in *.
     destruct HPI as [Hsrc [Hunc [Hval Hpc]]]. unfold lstep in E. cbn [p_pc p_req p_src p_unc with_pc with_src] in E.
-    destruct k as [todo|todo|t rtodo|m rest|m todo rest|m rest|m todo rest|m rest|m a rest|m todo rest|];
+    destruct k as [todo|todo|t rtodo|m rest|m todo rest|m todo rest|m todo rest|m rest|m a rest|m todo rest|];
       try destruct todo as [|t' todo]; cbn [PIpc] in Hpc.
     - (* Load [] *) injection E as <- <- <- <- <-. cbn [p_pc p_req p_src p_unc with_pc with_src]. keep3. cbn [PIpc]. split.
       + intros x Hx. apply filter_In in Hx. tauto.
@@ -695,17 +527,22 @@ Section Proto.
       assert (Hall : allc c m) by (intros u Hm; apply Hc; [exact Hm | intros []]).
       destruct (o_single S) eqn:Es; cbn [PIpc]; auto.
     - (* Recheck *) destruct Hpc as [Hu [Hc Hpc]]. destruct (cached c t') eqn:Ec; injection E as <- <- <- <- <-;
-        cbn [p_pc p_req p_src p_unc with_pc with_src]; keep3; cbn [PIpc]; [|auto].
+        cbn [p_pc p_req p_src p_unc with_pc with_src]; keep3; cbn [PIpc].
+      2:{ split; [exact Hu|]. split; [apply incl_refl|]. split; [intros q H1 H2; contradiction | exact Hpc]. }
       split; [exact Hu|]. split; [|exact Hpc].
       intros u Hm Hn. destruct (coord_eq_dec t' u) as [<-|Hne]; [exact Ec|]. apply Hc; [exact Hm|]. intros [H|H]; contradiction.
-    - (* Fetch *) destruct Hpc as [Hu Hpc]. injection E as <- <- <- <- <-. cbn [p_pc p_req p_src p_unc with_pc with_src]. keep3.
+    - (* Fetch [] *) destruct Hpc as [Hu [Hi [Hq Hpc]]]. injection E as <- <- <- <- <-. cbn [p_pc p_req p_src p_unc with_pc with_src]. keep3.
       + intros u w. rewrite (lookup_app_map (fun x => Some (o_up S x))). destruct (mem u (o_members S m)); [|exact (Hsrc u w)].
         intros H. injection H as <-. left. reflexivity.
-      + cbn [PIpc]. split; [exact Hu|]. split; [apply incl_refl|]. split; [left; reflexivity|].
+      + cbn [PIpc]. split; [exact Hu|]. split; [apply incl_refl|]. split; [intros q H1; apply Hq; [exact H1 | intros []]|].
         intros r Hr. destruct (Hpc r Hr) as [[H1 H2]|[H|H]]; auto.
         * left. split; [exact H1|]. intros Hrl. rewrite has_src_app_map, (H2 Hrl). apply orb_true_r.
         * right. left. assert (Hin : In r (o_members S m)) by (rewrite <- H; apply HA; auto).
           split; [|exact Hin]. rewrite has_src_app_map. apply mem_In in Hin. rewrite Hin. reflexivity.
+    - (* Fetch *) destruct Hpc as [Hu [Hi [Hq Hpc]]]. injection E as <- <- <- <- <-. cbn [p_pc p_req p_src p_unc with_pc with_src]. keep3.
+      cbn [PIpc]. split; [exact Hu|]. split; [intros x Hx; apply Hi; right; exact Hx|]. split; [|exact Hpc].
+      intros q H1 H2. destruct (coord_eq_dec t' q) as [->|Hn]; [left; reflexivity|]. right. apply Hq; [exact H1|].
+      intros [H|H]; contradiction.
     - (* Store [] *) destruct Hpc as [Hu [Hi [Hf Hpc]]]. injection E as <- <- <- <- <-. cbn [p_pc p_req p_src p_unc with_pc with_src]. keep3.
       cbn [PIpc]. split; [exact Hu|]. intros r Hr. destruct (Hpc r Hr) as [H|[[_ []]|H]]; auto.
     - (* Store *) destruct Hpc as [Hu [Hi [Hf Hpc]]]. injection E as <- <- <- <- <-. cbn [p_pc p_req p_src p_unc with_pc with_src]. keep3.
@@ -768,10 +605,10 @@ Section Proto.
     lstep S p c l f pr = (c', l', f', pr', o) ->
     p_req pr' = p_req pr /\
     (c' = c \/ exists t m todo rest, p_pc pr = Store m (t :: todo) rest /\ c' = (t, o_up S t) :: c) /\
-    (f' = f \/ exists m rest, p_pc pr = Fetch m rest /\ f' = m :: f).
+    (f' = f \/ exists q m qs rest, p_pc pr = Fetch m (q :: qs) rest /\ f' = q :: f).
   Proof.
     unfold lstep.
-    destruct (p_pc pr) as [todo|todo|t rtodo|m rest|m todo rest|m rest|m todo rest|m rest|m a rest|m todo rest|] eqn:Hpc;
+    destruct (p_pc pr) as [todo|todo|t rtodo|m rest|m todo rest|m todo rest|m todo rest|m rest|m a rest|m todo rest|] eqn:Hpc;
       try destruct todo as [|t' todo].
     all: try (intros H; injection H as <- <- <- <- <-; fin_same).
     - destruct (file S c t'); intros H; injection H as <- <- <- <- <-; fin_same.
@@ -779,7 +616,7 @@ Section Proto.
     - destruct (lookup l (o_key S m)); intros H; injection H as <- <- <- <- <-; fin_same.
     - destruct (cached c t'); intros H; injection H as <- <- <- <- <-; fin_same.
     - intros H; injection H as <- <- <- <- <-; cbn [p_req with_pc with_src]; split; [reflexivity|]; split; [left; reflexivity|].
-      right. exists m, rest. split; reflexivity.
+      right. exists t', m, todo, rest. split; reflexivity.
     - intros H; injection H as <- <- <- <- <-; cbn [p_req with_pc with_src]; split; [reflexivity|]; split; [|left; reflexivity].
       right. exists t', m, todo, rest. split; reflexivity.
     - destruct (has_src (p_src pr) m); intros H; injection H as <- <- <- <- <-; fin_same.
@@ -793,15 +630,24 @@ Section Proto.
     - intros H Hg. rewrite (IH _ H Hg). reflexivity.
   Qed.
 
+  Definition isunit (m : coord) : Prop := exists r, valid r /\ m = o_main S r.
+
+  Lemma queries_nonempty r : valid r -> exists q, In q (queries S (o_main S r)).
+  Proof.
+    intros Hv. unfold queries. destruct (o_bulk S); [exists r; apply HA; exact Hv | exists (o_main S r); left; reflexivity].
+  Qed.
+
   Record GInv (reqs : list (list coord)) (s : state) : Prop := mk_GInv {
     g_ok : cache_ok (cache s);
     g_c0 : forall t, cached c0 t = true -> cached (cache s) t = true;
     g_pi : forall p pr, nth_error (procs s) p = Some pr -> PI (cache s) (fetched s) pr;
     g_req : map p_req (procs s) = reqs;
     g_dom : forall t, cached (cache s) t = true ->
-                      cached c0 t = true \/ exists m, In m (fetched s) /\ In t (o_members S m);
-    g_why : forall m, In m (fetched s) ->
-                      exists p pr r, nth_error (procs s) p = Some pr /\ In r (p_req pr) /\ cached c0 r = false /\ m = o_main S r
+                      cached c0 t = true \/
+                      exists m q, isunit m /\ In q (fetched s) /\ In q (queries S m) /\ In t (o_members S m);
+    g_why : forall q, In q (fetched s) ->
+                      exists p pr r, nth_error (procs s) p = Some pr /\ In r (p_req pr) /\ cached c0 r = false /\
+                                     In q (queries S (o_main S r))
   }.
 
   Lemma ginv_step reqs s p : GInv reqs s -> GInv reqs (fst (step S s p)).
@@ -816,7 +662,7 @@ Section Proto.
     assert (Hcm : forall t, cached (cache s) t = true -> cached c' t = true).
     { destruct Hc as [->|[t [m [todo [rest [_ ->]]]]]]; [auto | intros u; apply cached_cons]. }
     assert (Hfm : incl (fetched s) f').
-    { destruct Hf as [->|[m [rest [_ ->]]]]; [apply incl_refl | apply incl_tl, incl_refl]. }
+    { destruct Hf as [->|[q0 [m [qs [rest [_ ->]]]]]]; [apply incl_refl | apply incl_tl, incl_refl]. }
     pose proof (g_pi _ _ HG _ _ Hp) as [_ [Hunc [Hval Hpipc]]].
     constructor; cbn [cache fetched procs].
     - destruct Hc as [->|[t [m [todo [rest [_ ->]]]]]]; [apply (g_ok _ _ HG)|].
@@ -827,24 +673,29 @@ Section Proto.
       + injection Hq as <-. exact HPI'.
       + eapply PI_mono; [exact Hcm | exact Hfm | apply (g_pi _ _ HG _ _ Hq)].
     - rewrite <- (g_req _ _ HG). eapply map_set_nth; eassumption.
-    - intros u Hu. destruct Hc as [->|[t [m [todo [rest [Hpc ->]]]]]].
-      + destruct (g_dom _ _ HG u Hu) as [H|[m [Hm Hin]]]; [left; exact H | right; exists m; split; [apply Hfm; exact Hm | exact Hin]].
-      + destruct (coord_eq_dec t u) as [<-|Hn].
-        * right. rewrite Hpc in Hpipc. cbn [PIpc] in Hpipc. destruct Hpipc as [_ [Hi [Hm _]]].
-          exists m. split; [apply Hfm; exact Hm | apply Hi; left; reflexivity].
-        * unfold cached in Hu. rewrite lookup_cons_neq in Hu by exact Hn.
-          destruct (g_dom _ _ HG u Hu) as [H|[m' [Hm Hin]]]; [left; exact H | right; exists m'; split; [apply Hfm; exact Hm | exact Hin]].
-    - assert (Hprev : forall m, In m (fetched s) -> exists p0 pr0 r, nth_error (set_nth (procs s) p pr') p0 = Some pr0 /\
-                       In r (p_req pr0) /\ cached c0 r = false /\ m = o_main S r).
+    - assert (Hkeep : forall u, cached (cache s) u = true -> cached c0 u = true \/
+                        exists m q, isunit m /\ In q f' /\ In q (queries S m) /\ In u (o_members S m)).
+      { intros u Hu. destruct (g_dom _ _ HG u Hu) as [H|[m [q [Hm [Hq [Hqm Hin]]]]]]; [left; exact H|].
+        right. exists m, q. repeat split; auto. }
+      intros u Hu. destruct Hc as [->|[t [m [todo [rest [Hpc ->]]]]]]; [apply Hkeep; exact Hu|].
+      destruct (coord_eq_dec t u) as [<-|Hn].
+      + right. rewrite Hpc in Hpipc. cbn [PIpc] in Hpipc. destruct Hpipc as [Hu' [Hi [Hm _]]].
+        destruct (Hu' m (or_introl eq_refl)) as [r [Hr Hmr]]. destruct (Hunc r Hr) as [Hrr _].
+        destruct (queries_nonempty r (Hval r Hrr)) as [q Hq]. rewrite <- Hmr in Hq.
+        exists m, q. split; [exists r; split; [apply Hval; exact Hrr | exact Hmr]|].
+        split; [apply Hfm; apply Hm; exact Hq|]. split; [exact Hq | apply Hi; left; reflexivity].
+      + unfold cached in Hu. rewrite lookup_cons_neq in Hu by exact Hn. apply Hkeep. exact Hu.
+    - assert (Hprev : forall q, In q (fetched s) -> exists p0 pr0 r, nth_error (set_nth (procs s) p pr') p0 = Some pr0 /\
+                       In r (p_req pr0) /\ cached c0 r = false /\ In q (queries S (o_main S r))).
       { intros m Hm. destruct (g_why _ _ HG m Hm) as [q [prq [r [Hq [Hr [H0 Hmr]]]]]].
         destruct (Nat.eq_dec q p) as [->|Hn].
         - exists p, pr', r. rewrite Hnth, Nat.eqb_refl. rewrite Hp in Hq. injection Hq as <-. rewrite Hreq. auto.
         - exists q, prq, r. rewrite Hnth. destruct (Nat.eqb_spec q p); [contradiction | auto]. }
-      destruct Hf as [->|[m [rest [Hpc ->]]]]; [exact Hprev|].
-      intros m' [<-|Hm']; [|apply Hprev; exact Hm'].
-      rewrite Hpc in Hpipc. cbn [PIpc] in Hpipc. destruct Hpipc as [Hu _].
+      destruct Hf as [->|[q0 [m [qs [rest [Hpc ->]]]]]]; [exact Hprev|].
+      intros q' [<-|Hm']; [|apply Hprev; exact Hm'].
+      rewrite Hpc in Hpipc. cbn [PIpc] in Hpipc. destruct Hpipc as [Hu [Hi _]].
       destruct (Hu m (or_introl eq_refl)) as [r [Hr Hmr]]. destruct (Hunc r Hr) as [Hrr H0].
-      exists p, pr', r. rewrite Hnth, Nat.eqb_refl, Hreq. auto.
+      exists p, pr', r. rewrite Hnth, Nat.eqb_refl, Hreq. repeat split; auto. rewrite <- Hmr. apply Hi. left. reflexivity.
   Qed.
 
   Lemma ginv_init reqs :
@@ -861,6 +712,240 @@ Section Proto.
     - intros m [].
   Qed.
 
+  (* ---------------------------------------------------------------- every upstream request is made once *)
+
+  (* different units ask the upstream different things; a unit does not ask the same thing twice *)
+  Hypothesis HQ : forall r r' q, valid r -> valid r' ->
+    In q (queries S (o_main S r)) -> In q (queries S (o_main S r')) -> o_main S r = o_main S r'.
+  Hypothesis HQnd : forall r, valid r -> NoDup (queries S (o_main S r)).
+
+  Lemma pc_unit reqs s p pr m :
+    GInv reqs s -> nth_error (procs s) p = Some pr -> holds (p_pc pr) = Some m -> isunit m.
+  Proof.
+    intros HG Hp Hm. destruct (g_pi _ _ HG _ _ Hp) as [_ [Hunc [Hval Hpc]]].
+    assert (Hu : units_ok (p_unc pr) [m] -> isunit m).
+    { intros H. destruct (H m (or_introl eq_refl)) as [r [Hr ->]]. exists r. split; [apply Hval; apply (Hunc r Hr) | reflexivity]. }
+    apply Hu. intros x [<-|[]].
+    destruct (p_pc pr) as [todo|todo|t rtodo|m' rest|m' todo rest|m' todo rest|m' todo rest|m' rest|m' a rest|m' todo rest|];
+      try discriminate Hm; injection Hm as ->; cbn [PIpc] in Hpc.
+    - apply (proj1 Hpc). left. reflexivity.
+    - apply (proj1 Hpc). left. reflexivity.
+    - apply (proj1 Hpc). left. reflexivity.
+    - apply (proj1 (proj2 Hpc)). left. reflexivity.
+    - apply (proj1 Hpc). left. reflexivity.
+  Qed.
+
+  (* some requester is storing the tiles of unit m: what it has already stored is in the cache *)
+  Definition storing (s : state) (m : coord) : Prop :=
+    exists p pr todo rest, nth_error (procs s) p = Some pr /\ p_pc pr = Store m todo rest /\
+      forall u, In u (o_members S m) -> ~ In u todo -> cached (cache s) u = true.
+  (* some requester is in the upstream requests of unit m and has made request q *)
+  Definition fetching (s : state) (m q : coord) : Prop :=
+    exists p pr qs rest, nth_error (procs s) p = Some pr /\ p_pc pr = Fetch m qs rest /\ ~ In q qs.
+
+  Record FetchInv (s : state) : Prop := mk_FetchInv {
+    fi_nodup : NoDup (fetched s);
+    fi_done : forall q m, In q (fetched s) -> In q (queries S m) -> isunit m ->
+                          allc (cache s) m \/ storing s m \/ fetching s m q;
+    fi_fetch : forall p pr m qs rest, nth_error (procs s) p = Some pr -> p_pc pr = Fetch m qs rest ->
+                                      (forall q, In q qs -> ~ In q (fetched s)) /\ NoDup qs /\ incl qs (queries S m);
+    fi_recheck : forall p pr m todo rest, nth_error (procs s) p = Some pr -> p_pc pr = Recheck m todo rest ->
+                                          incl todo (o_members S m)
+  }.
+
+  Definition is_store (c : pc) : bool := match c with Store _ _ _ => true | _ => false end.
+  Definition is_fetch (c : pc) : bool := match c with Fetch _ _ _ => true | _ => false end.
+
+  Lemma next_unit_store rest : is_store (next_unit rest) = false.
+  Proof. destruct rest; reflexivity. Qed.
+  Lemma next_unit_fetch rest : is_fetch (next_unit rest) = false.
+  Proof. destruct rest; reflexivity. Qed.
+  Lemma next_unit_recheck rest m todo r : next_unit rest = Recheck m todo r -> False.
+  Proof. destruct rest; discriminate. Qed.
+
+  (* steps that neither write the cache, nor call the upstream, nor enter / leave Store, Fetch, Recheck *)
+  Lemma fetch_inv_frame s p pr pr' l' :
+    FetchInv s -> nth_error (procs s) p = Some pr ->
+    is_store (p_pc pr) = false -> is_fetch (p_pc pr) = false ->
+    is_store (p_pc pr') = false -> is_fetch (p_pc pr') = false ->
+    (forall m todo rest, p_pc pr' = Recheck m todo rest -> incl todo (o_members S m)) ->
+    FetchInv (mk_state (cache s) l' (fetched s) (set_nth (procs s) p pr')).
+  Proof.
+    intros HF Hp Hs Hf Hs' Hf' Hr'.
+    assert (Hnth : forall q, nth_error (set_nth (procs s) p pr') q = if Nat.eqb q p then Some pr' else nth_error (procs s) q).
+    { intros q. destruct (Nat.eqb_spec q p) as [->|Hn]; [eapply nth_set_nth_eq; exact Hp | apply nth_set_nth_neq; congruence]. }
+    constructor; cbn [fetched cache procs].
+    - apply (fi_nodup _ HF).
+    - intros q m Hq Hqm Hum. destruct (fi_done _ HF q m Hq Hqm Hum) as [H|[[w [prw [todo [rest [Hw [Hpc Hc]]]]]]|[w [prw [qs [rest [Hw [Hpc Hc]]]]]]]].
+      + left; exact H.
+      + right; left. exists w, prw, todo, rest. cbn [procs cache]. rewrite Hnth.
+        destruct (Nat.eqb_spec w p) as [->|Hn]; [|auto]. rewrite Hp in Hw. injection Hw as <-. rewrite Hpc in Hs. discriminate.
+      + right; right. exists w, prw, qs, rest. cbn [procs]. rewrite Hnth.
+        destruct (Nat.eqb_spec w p) as [->|Hn]; [|auto]. rewrite Hp in Hw. injection Hw as <-. rewrite Hpc in Hf. discriminate.
+    - intros w prw m qs rest Hw Hpc. rewrite Hnth in Hw. destruct (Nat.eqb_spec w p) as [->|Hn].
+      + injection Hw as <-. rewrite Hpc in Hf'. discriminate.
+      + eapply (fi_fetch _ HF); eassumption.
+    - intros w prw m todo rest Hw Hpc. rewrite Hnth in Hw. destruct (Nat.eqb_spec w p) as [->|Hn].
+      + injection Hw as <-. eapply Hr'; eassumption.
+      + eapply (fi_recheck _ HF); eassumption.
+  Qed.
+
+  Lemma fetch_inv_step reqs s p : LockInv s -> GInv reqs s -> FetchInv s -> FetchInv (fst (step S s p)).
+  Proof.
+    intros HL HG HF. destruct (nth_error (procs s) p) as [pr|] eqn:Hp; [|rewrite step_none by exact Hp; exact HF].
+    rewrite (step_lstep _ _ _ _ Hp). unfold lstep.
+    assert (Hnth : forall pr' q, nth_error (set_nth (procs s) p pr') q = if Nat.eqb q p then Some pr' else nth_error (procs s) q).
+    { intros pr' q. destruct (Nat.eqb_spec q p) as [->|Hn]; [eapply nth_set_nth_eq; exact Hp | apply nth_set_nth_neq; congruence]. }
+    destruct (p_pc pr) as [todo|todo|t rtodo|m rest|m todo rest|m todo rest|m todo rest|m rest|m a rest|m todo rest|] eqn:Hpc;
+      try destruct todo as [|t' todo].
+    - (* Load [] *) cbn [fst]. eapply fetch_inv_frame; eauto; try (rewrite Hpc; reflexivity); cbn; try reflexivity. discriminate.
+    - (* Load *) destruct (file S (cache s) t'); cbn [fst];
+        (eapply fetch_inv_frame; eauto; try (rewrite Hpc; reflexivity); cbn; try reflexivity; discriminate).
+    - (* Check [] *) cbn [fst]. eapply fetch_inv_frame; eauto; try (rewrite Hpc; reflexivity); cbn [p_pc with_pc].
+      + apply next_unit_store. + apply next_unit_fetch. + intros ? ? ? H. exfalso. eapply next_unit_recheck; exact H.
+    - (* Check *) destruct (cached (cache s) t'); cbn [fst].
+      + eapply fetch_inv_frame; eauto; try (rewrite Hpc; reflexivity); cbn [p_pc with_pc];
+          destruct (has_src (p_src pr) t'); try destruct (o_reload S); try reflexivity; discriminate.
+      + eapply fetch_inv_frame; eauto; try (rewrite Hpc; reflexivity); cbn; try reflexivity; discriminate.
+    - (* Reload *) cbn [fst]. eapply fetch_inv_frame; eauto; try (rewrite Hpc; reflexivity); cbn; try reflexivity. discriminate.
+    - (* Lock *) destruct (lookup (locks s) (o_key S m)); cbn [fst].
+      + eapply fetch_inv_frame; eauto; try (rewrite Hpc; reflexivity). rewrite Hpc. discriminate.
+      + rewrite Hrecheck. eapply fetch_inv_frame; eauto; try (rewrite Hpc; reflexivity); cbn; try reflexivity.
+        intros ? ? ? H. injection H as <- <- <-. apply incl_refl.
+    - (* Recheck [] *) cbn [fst]. eapply fetch_inv_frame; eauto; try (rewrite Hpc; reflexivity); cbn [p_pc with_pc];
+        destruct (o_single S); try reflexivity; discriminate.
+    - (* Recheck *) pose proof (fi_recheck _ HF _ _ _ _ _ Hp Hpc) as Hincl.
+      destruct (cached (cache s) t') eqn:Ec; cbn [fst].
+      + eapply fetch_inv_frame; eauto; try (rewrite Hpc; reflexivity); cbn; try reflexivity.
+        intros ? ? ? H. injection H as <- <- <-. intros u Hu. apply Hincl. right. exact Hu.
+      + (* a miss under the lock: nobody has asked the upstream anything for this unit *)
+        assert (Hum : isunit m) by (eapply pc_unit; [exact HG | exact Hp | rewrite Hpc; reflexivity]).
+        assert (Hnot : forall q, In q (queries S m) -> ~ In q (fetched s)).
+        { intros q Hqm Hq. destruct (fi_done _ HF q m Hq Hqm Hum) as [H|[[w [prw [todo' [rest' [Hw [Hpcw _]]]]]]|[w [prw [qs [rest' [Hw [Hpcw _]]]]]]]].
+          - rewrite (H t') in Ec; [discriminate | apply Hincl; left; reflexivity].
+          - assert (p = w) by (eapply holders_differ; [exact HL | exact Hp | exact Hw | rewrite Hpc; reflexivity | rewrite Hpcw; reflexivity]).
+            subst w. rewrite Hp in Hw. injection Hw as <-. congruence.
+          - assert (p = w) by (eapply holders_differ; [exact HL | exact Hp | exact Hw | rewrite Hpc; reflexivity | rewrite Hpcw; reflexivity]).
+            subst w. rewrite Hp in Hw. injection Hw as <-. congruence. }
+        constructor; cbn [fetched cache procs].
+        * apply (fi_nodup _ HF).
+        * intros q m' Hq Hqm Hum'. destruct (fi_done _ HF q m' Hq Hqm Hum') as [H|[[w [prw [todo' [rest' [Hw [Hpcw Hc]]]]]]|[w [prw [qs [rest' [Hw [Hpcw Hc]]]]]]]].
+          -- left; exact H.
+          -- right; left. exists w, prw, todo', rest'. cbn [procs cache]. rewrite Hnth.
+             destruct (Nat.eqb_spec w p) as [->|Hn]; [|auto]. rewrite Hp in Hw. injection Hw as <-. congruence.
+          -- right; right. exists w, prw, qs, rest'. cbn [procs]. rewrite Hnth.
+             destruct (Nat.eqb_spec w p) as [->|Hn]; [|auto]. rewrite Hp in Hw. injection Hw as <-. congruence.
+        * intros w prw m' qs rest' Hw Hpcw. rewrite Hnth in Hw. destruct (Nat.eqb_spec w p) as [->|Hn].
+          -- injection Hw as <-. cbn in Hpcw. injection Hpcw as <- <- <-. split; [exact Hnot|]. split; [|apply incl_refl].
+             destruct Hum as [r [Hv ->]]. apply HQnd. exact Hv.
+          -- eapply (fi_fetch _ HF); eassumption.
+        * intros w prw m' todo' rest' Hw Hpcw. rewrite Hnth in Hw. destruct (Nat.eqb_spec w p) as [->|Hn].
+          -- injection Hw as <-. discriminate.
+          -- eapply (fi_recheck _ HF); eassumption.
+    - (* Fetch [] : all answers are there, the tiles are stored next *) cbn [fst]. constructor; cbn [fetched cache procs].
+      + apply (fi_nodup _ HF).
+      + intros q m' Hq Hqm Hum'. destruct (fi_done _ HF q m' Hq Hqm Hum') as [H|[[w [prw [todo' [rest' [Hw [Hpcw Hc]]]]]]|[w [prw [qs [rest' [Hw [Hpcw Hc]]]]]]]].
+        * left; exact H.
+        * right; left. exists w, prw, todo', rest'. cbn [procs cache]. rewrite Hnth.
+          destruct (Nat.eqb_spec w p) as [->|Hn]; [|auto]. rewrite Hp in Hw. injection Hw as <-. congruence.
+        * destruct (Nat.eq_dec w p) as [->|Hn].
+          -- right; left. rewrite Hp in Hw. injection Hw as <-. rewrite Hpc in Hpcw. injection Hpcw as <- <- <-.
+             eexists p, _, (o_members S m), rest. cbn [procs cache]. rewrite Hnth, Nat.eqb_refl. split; [reflexivity|].
+             split; [reflexivity|]. intros u Hu Hnu. contradiction.
+          -- right; right. exists w, prw, qs, rest'. cbn [procs]. rewrite Hnth. destruct (Nat.eqb_spec w p); [contradiction | auto].
+      + intros w prw m' qs rest' Hw Hpcw. rewrite Hnth in Hw. destruct (Nat.eqb_spec w p) as [->|Hn].
+        * injection Hw as <-. discriminate.
+        * eapply (fi_fetch _ HF); eassumption.
+      + intros w prw m' todo' rest' Hw Hpcw. rewrite Hnth in Hw. destruct (Nat.eqb_spec w p) as [->|Hn].
+        * injection Hw as <-. discriminate.
+        * eapply (fi_recheck _ HF); eassumption.
+    - (* Fetch : one upstream request *) cbn [fst]. destruct (fi_fetch _ HF _ _ _ _ _ Hp Hpc) as [Hnew [Hnd Hinc]].
+      assert (Hum : isunit m) by (eapply pc_unit; [exact HG | exact Hp | rewrite Hpc; reflexivity]).
+      constructor; cbn [fetched cache procs].
+      + constructor; [apply Hnew; left; reflexivity | apply (fi_nodup _ HF)].
+      + intros q m' [<-|Hq] Hqm Hum'.
+        * assert (m' = m).
+          { destruct Hum as [r [Hv ->]], Hum' as [r' [Hv' ->]]. apply (HQ r' r t'); auto. apply Hinc. left. reflexivity. }
+          subst m'. right; right. eexists p, _, todo, rest. cbn [procs]. rewrite Hnth, Nat.eqb_refl.
+          split; [reflexivity|]. split; [reflexivity|]. inversion Hnd. assumption.
+        * destruct (fi_done _ HF q m' Hq Hqm Hum') as [H|[[w [prw [todo' [rest' [Hw [Hpcw Hc]]]]]]|[w [prw [qs [rest' [Hw [Hpcw Hc]]]]]]]].
+          -- left; exact H.
+          -- right; left. exists w, prw, todo', rest'. cbn [procs cache]. rewrite Hnth.
+             destruct (Nat.eqb_spec w p) as [->|Hn]; [|auto]. rewrite Hp in Hw. injection Hw as <-. congruence.
+          -- right; right. destruct (Nat.eq_dec w p) as [->|Hn].
+             ++ rewrite Hp in Hw. injection Hw as <-. rewrite Hpc in Hpcw. injection Hpcw as <- <- <-.
+                eexists p, _, todo, rest. cbn [procs]. rewrite Hnth, Nat.eqb_refl. split; [reflexivity|]. split; [reflexivity|].
+                intros Hin. apply Hc. right. exact Hin.
+             ++ exists w, prw, qs, rest'. cbn [procs]. rewrite Hnth. destruct (Nat.eqb_spec w p); [contradiction | auto].
+      + intros w prw m' qs rest' Hw Hpcw. rewrite Hnth in Hw. destruct (Nat.eqb_spec w p) as [->|Hn].
+        * injection Hw as <-. cbn in Hpcw. injection Hpcw as <- <- <-. inversion Hnd as [|? ? Hnin Hnd']. subst.
+          split; [|split; [exact Hnd' | intros x Hx; apply Hinc; right; exact Hx]].
+          intros q Hq [<-|Hin]; [contradiction | apply (Hnew q); [right; exact Hq | exact Hin]].
+        * destruct (fi_fetch _ HF _ _ _ _ _ Hw Hpcw) as [Hnew' [Hnd' Hinc']]. split; [|split; assumption].
+          intros q Hq [<-|Hin]; [|apply (Hnew' q Hq Hin)].
+          assert (Hum' : isunit m') by (eapply pc_unit; [exact HG | exact Hw | rewrite Hpcw; reflexivity]).
+          assert (m' = m).
+          { destruct Hum as [r [Hv ->]], Hum' as [r' [Hv' ->]]. apply (HQ r' r t'); auto. apply Hinc. left. reflexivity. }
+          subst m'. apply Hn. symmetry.
+          eapply holders_differ; [exact HL | exact Hp | exact Hw | rewrite Hpc; reflexivity | rewrite Hpcw; reflexivity].
+      + intros w prw m' todo' rest' Hw Hpcw. rewrite Hnth in Hw. destruct (Nat.eqb_spec w p) as [->|Hn].
+        * injection Hw as <-. discriminate.
+        * eapply (fi_recheck _ HF); eassumption.
+    - (* Store [] *) cbn [fst]. constructor; cbn [fetched cache procs].
+      + apply (fi_nodup _ HF).
+      + intros q m' Hq Hqm Hum'. destruct (fi_done _ HF q m' Hq Hqm Hum') as [H|[[w [prw [todo' [rest' [Hw [Hpcw Hc]]]]]]|[w [prw [qs [rest' [Hw [Hpcw Hc]]]]]]]].
+        * left; exact H.
+        * destruct (Nat.eq_dec w p) as [->|Hn].
+          -- left. rewrite Hp in Hw. injection Hw as <-. rewrite Hpc in Hpcw. injection Hpcw as <- <- <-.
+             intros u Hu. apply Hc; [exact Hu | intros []].
+          -- right; left. exists w, prw, todo', rest'. cbn [procs cache]. rewrite Hnth. destruct (Nat.eqb_spec w p); [contradiction | auto].
+        * right; right. exists w, prw, qs, rest'. cbn [procs]. rewrite Hnth.
+          destruct (Nat.eqb_spec w p) as [->|Hn]; [|auto]. rewrite Hp in Hw. injection Hw as <-. congruence.
+      + intros w prw m' qs rest' Hw Hpcw. rewrite Hnth in Hw. destruct (Nat.eqb_spec w p) as [->|Hn].
+        * injection Hw as <-. discriminate.
+        * eapply (fi_fetch _ HF); eassumption.
+      + intros w prw m' todo' rest' Hw Hpcw. rewrite Hnth in Hw. destruct (Nat.eqb_spec w p) as [->|Hn].
+        * injection Hw as <-. discriminate.
+        * eapply (fi_recheck _ HF); eassumption.
+    - (* Store *) cbn [fst]. constructor; cbn [fetched cache procs].
+      + apply (fi_nodup _ HF).
+      + intros q m' Hq Hqm Hum'. destruct (fi_done _ HF q m' Hq Hqm Hum') as [H|[[w [prw [todo' [rest' [Hw [Hpcw Hc]]]]]]|[w [prw [qs [rest' [Hw [Hpcw Hc]]]]]]]].
+        * left. intros u Hu. apply cached_cons. apply H. exact Hu.
+        * right; left. destruct (Nat.eq_dec w p) as [->|Hn].
+          -- rewrite Hp in Hw. injection Hw as <-. rewrite Hpc in Hpcw. injection Hpcw as <- <- <-.
+             exists p, (with_pc pr (Store m todo rest)), todo, rest. cbn [procs cache]. rewrite Hnth, Nat.eqb_refl.
+             repeat split. intros u Hu Hnu. destruct (coord_eq_dec t' u) as [->|Hne]; [apply cached_cons_eq|].
+             apply cached_cons. apply Hc; [exact Hu|]. intros [H|H]; [contradiction | contradiction].
+          -- exists w, prw, todo', rest'. cbn [procs cache]. rewrite Hnth. destruct (Nat.eqb_spec w p); [contradiction|].
+             repeat split; try assumption. intros u Hu Hnu. apply cached_cons. apply Hc; assumption.
+        * right; right. exists w, prw, qs, rest'. cbn [procs]. rewrite Hnth.
+          destruct (Nat.eqb_spec w p) as [->|Hn]; [|auto]. rewrite Hp in Hw. injection Hw as <-. congruence.
+      + intros w prw m' qs rest' Hw Hpcw. rewrite Hnth in Hw. destruct (Nat.eqb_spec w p) as [->|Hn].
+        * injection Hw as <-. discriminate.
+        * eapply (fi_fetch _ HF); eassumption.
+      + intros w prw m' todo' rest' Hw Hpcw. rewrite Hnth in Hw. destruct (Nat.eqb_spec w p) as [->|Hn].
+        * injection Hw as <-. discriminate.
+        * eapply (fi_recheck _ HF); eassumption.
+    - (* LoadUnder *) destruct (has_src (p_src pr) m); cbn [fst];
+        (eapply fetch_inv_frame; eauto; try (rewrite Hpc; reflexivity); cbn; try reflexivity; discriminate).
+    - (* Unlock *) cbn [fst]. eapply fetch_inv_frame; eauto; try (rewrite Hpc; reflexivity); cbn [p_pc with_pc]; destruct a;
+        try reflexivity; try discriminate; try apply next_unit_store; try apply next_unit_fetch.
+      intros ? ? ? H. exfalso. eapply next_unit_recheck; exact H.
+    - (* LoadAfter [] *) cbn [fst]. eapply fetch_inv_frame; eauto; try (rewrite Hpc; reflexivity); cbn [p_pc with_pc].
+      + apply next_unit_store. + apply next_unit_fetch. + intros ? ? ? H. exfalso. eapply next_unit_recheck; exact H.
+    - (* LoadAfter *) cbn [fst]. eapply fetch_inv_frame; eauto; try (rewrite Hpc; reflexivity); cbn; try reflexivity. discriminate.
+    - (* Done *) cbn [fst]. rewrite (set_nth_same _ _ _ Hp). destruct s; exact HF.
+  Qed.
+
+  Lemma fetch_inv_init reqs : FetchInv (init c0 reqs).
+  Proof.
+    constructor; cbn [init fetched procs cache].
+    - constructor.
+    - intros q m [].
+    - intros p pr m qs rest Hp Hpc. apply nth_error_In in Hp. apply in_map_iff in Hp. destruct Hp as [r [<- _]]. discriminate.
+    - intros p pr m todo rest Hp Hpc. apply nth_error_In in Hp. apply in_map_iff in Hp. destruct Hp as [r [<- _]]. discriminate.
+  Qed.
+
   Definition Reach (reqs : list (list coord)) (s : state) : Prop := LockInv s /\ FetchInv s /\ GInv reqs s.
 
   Lemma reach_run reqs sched :
@@ -868,7 +953,7 @@ Section Proto.
     Reach reqs (run S (init c0 reqs) sched).
   Proof.
     intros Hok Hv. apply (run_inv S (Reach reqs)).
-    - intros s p [HL [HF HG]]. split; [apply lock_inv_step; exact HL|]. split; [apply fetch_inv_step; assumption | apply ginv_step; exact HG].
+    - intros s p [HL [HF HG]]. split; [apply lock_inv_step; exact HL|]. split; [apply (fetch_inv_step reqs); assumption | apply ginv_step; exact HG].
     - split; [apply lock_inv_init|]. split; [apply fetch_inv_init | apply ginv_init; assumption].
   Qed.
 
@@ -935,8 +1020,10 @@ Section Proto.
     GInv reqs s -> lookup (cache s) t = Some v -> v = o_up S t /\ (cached c0 t = true \/ needed reqs t).
   Proof.
     intros HG Hl. split; [apply (g_ok _ _ HG); exact Hl|].
-    destruct (g_dom _ _ HG t (lookup_cached _ _ _ Hl)) as [H|[m [Hm Hin]]]; [left; exact H|]. right.
-    destruct (g_why _ _ HG m Hm) as [p [pr [r [Hp [Hr [H0 ->]]]]]].
+    destruct (g_dom _ _ HG t (lookup_cached _ _ _ Hl)) as [H|[m [q [[r1 [Hv1 ->]] [Hq [Hqm Hin]]]]]]; [left; exact H|]. right.
+    destruct (g_why _ _ HG q Hq) as [p [pr [r [Hp [Hr [H0 Hqr]]]]]].
+    destruct (g_pi _ _ HG _ _ Hp) as [_ [_ [Hval _]]].
+    rewrite (HQ r1 r q Hv1 (Hval r Hr) Hqm Hqr) in Hin.
     exists (p_req pr), r. repeat split; auto. rewrite <- (g_req _ _ HG). apply in_map. eapply nth_error_In. exact Hp.
   Qed.
 
@@ -950,13 +1037,12 @@ Section Proto.
     assert (Hd : p_pc pr = Done).
     { pose proof (Hall pr (nth_error_In _ _ Hp)) as H. unfold is_done in H. destruct (p_pc pr); try discriminate. reflexivity. }
     pose proof (done_tiles_cached _ _ _ _ _ HG Hp Hd Hr) as Hcr.
-    destruct (g_dom _ _ HG r Hcr) as [H|[m [Hm Hrm]]]; [congruence|].
-    destruct (g_why _ _ HG m Hm) as [q [prq [r' [Hq [Hr' [_ ->]]]]]].
-    destruct (g_pi _ _ HG _ _ Hq) as [_ [_ [Hval _]]].
-    assert (Hmain : o_main S r = o_main S r') by (apply HB; [apply Hval; exact Hr' | exact Hrm]).
+    destruct (g_dom _ _ HG r Hcr) as [H|[m [q [Hum [Hq [Hqm Hrm]]]]]]; [congruence|].
+    assert (Hmain : o_main S r = m) by (destruct Hum as [r1 [Hv1 ->]]; apply HB; assumption).
     rewrite Hmain in Hin.
-    destruct (fi_done _ HF _ Hm) as [Hac|[q2 [pr2 [todo [rest [Hq2 [Hpc2 _]]]]]]]; [apply Hac; exact Hin|].
-    pose proof (Hall pr2 (nth_error_In _ _ Hq2)) as H. unfold is_done in H. rewrite Hpc2 in H. discriminate.
+    destruct (fi_done _ HF q m Hq Hqm Hum) as [Hac|[[q2 [pr2 [todo [rest [Hq2 [Hpc2 _]]]]]]|[q2 [pr2 [qs [rest [Hq2 [Hpc2 _]]]]]]]];
+      [apply Hac; exact Hin | |];
+      (pose proof (Hall pr2 (nth_error_In _ _ Hq2)) as H; unfold is_done in H; rewrite Hpc2 in H; discriminate).
   Qed.
 
   (* ---------------------------------------------------------------- a refused lock attempt *)
@@ -967,7 +1053,7 @@ Section Proto.
   Proof.
     intros [H1 H2] Ho. destruct (nth_error (procs s) p) as [pr|] eqn:Hp; [|rewrite step_none in Ho by exact Hp; discriminate].
     rewrite (step_lstep _ _ _ _ Hp) in Ho. unfold lstep in Ho.
-    destruct (p_pc pr) as [todo|todo|t rtodo|m rest|m todo rest|m rest|m todo rest|m rest|m a rest|m todo rest|] eqn:Hpc;
+    destruct (p_pc pr) as [todo|todo|t rtodo|m rest|m todo rest|m todo rest|m todo rest|m rest|m a rest|m todo rest|] eqn:Hpc;
       try destruct todo as [|t' todo]; cbn [snd] in Ho; try discriminate.
     - destruct (file S (cache s) t'); discriminate.
     - destruct (cached (cache s) t'); discriminate.
@@ -1065,6 +1151,36 @@ Proof.
   unfold g_main in HB at 1. rewrite Em in HB. exact HB.
 Qed.
 
+Lemma nodup_app {A} (a b : list A) : NoDup a -> NoDup b -> (forall x, In x a -> ~ In x b) -> NoDup (a ++ b).
+Proof.
+  induction a as [|x a IH]; intros Ha Hb Hd; [exact Hb|]. cbn [app]. inversion Ha as [|? ? Hx Ha']; subst. constructor.
+  - intros Hin. apply in_app_or in Hin. destruct Hin as [Hin|Hin]; [contradiction | apply (Hd x (or_introl eq_refl) Hin)].
+  - apply IH; auto. intros y Hy. apply Hd. right. exact Hy.
+Qed.
+
+Lemma zrange_nodup a n : NoDup (zrange a n).
+Proof.
+  unfold zrange. apply FinFun.Injective_map_NoDup; [|apply seq_NoDup]. intros i j H. lia.
+Qed.
+
+Lemma flat_map_rows_nodup (xs ys : list Z) (z : Z) :
+  NoDup xs -> NoDup ys -> NoDup (flat_map (fun y => map (fun x => (x, y, z)) xs) ys).
+Proof.
+  intros Hx Hy. induction ys as [|y ys IH]; cbn [flat_map]; [constructor|]. inversion Hy as [|? ? Hn Hy']; subst.
+  apply nodup_app; [|apply IH; exact Hy'|].
+  - apply FinFun.Injective_map_NoDup; [|exact Hx]. intros a b H. injection H as ->. reflexivity.
+  - intros t Ht Ht'. apply in_map_iff in Ht. destruct Ht as [x [<- _]].
+    apply in_flat_map in Ht'. destruct Ht' as [y' [Hy'' Hin]]. apply in_map_iff in Hin. destruct Hin as [x' [Heq _]].
+    injection Heq as _ ->. contradiction.
+Qed.
+
+Lemma grid_members_nodup g m : NoDup (g_members g m).
+Proof.
+  unfold g_members. destruct (g_meta g); [|repeat constructor; intros []].
+  apply NoDup_filter. unfold tile_list. destruct (meta_main g m) as [[x0 y0] z].
+  apply flat_map_rows_nodup; [apply zrange_nodup|]. destruct (g_flip g); [|apply NoDup_rev]; apply zrange_nodup.
+Qed.
+
 Lemma grid_main_same_iff g t u :
   valid_gconf g -> in_grid g u = true -> (g_main g u = g_main g t <-> In u (g_members g (g_main g t))).
 Proof.
@@ -1150,24 +1266,46 @@ Definition needed_tile (g : gconf) (c0 : list (coord * Z)) (reqs : list (list co
 (* without an expire timestamp no file counts as expired *)
 Definition old_ok (expire : bool) (old : coord -> option Z) : Prop := expire = false -> forall t, old t = None.
 
-Lemma grid_reach g reload up expire old c0 reqs sched :
-  valid_gconf g -> valid_reqs g reqs -> content_ok up c0 -> old_ok expire old ->
-  Reach (grid_sys_x g true reload up expire old) c0 (fun r => in_grid g r = true) reqs
-        (run (grid_sys_x g true reload up expire old) (init c0 reqs) sched).
+Lemma grid_queries g rc rl up ex old bulk m :
+  queries (grid_sys_b g rc rl up ex old bulk) m = if bulk && g_meta g then g_members g m else [m].
+Proof. reflexivity. Qed.
+
+Lemma grid_HQ g rc rl up ex old bulk :
+  valid_gconf g ->
+  let S := grid_sys_b g rc rl up ex old bulk in
+  forall r r' q, in_grid g r = true -> in_grid g r' = true ->
+    In q (queries S (o_main S r)) -> In q (queries S (o_main S r')) -> o_main S r = o_main S r'.
 Proof.
-  intros Hg Hr Hc Ho. apply reach_run; cbn [grid_sys_x o_recheck o_members o_main o_single o_up o_expire o_old]; auto.
-  - intros r Hv. apply grid_member_self; assumption.
-  - intros Hs r _. unfold g_main. destruct (g_meta g); [discriminate | reflexivity].
+  intros Hg S r r' q Hv Hv'. unfold S. rewrite !grid_queries. cbn [grid_sys_b o_main]. destruct (bulk && g_meta g).
+  - intros H1 H2. rewrite <- (grid_members_main g r q Hg H1), <- (grid_members_main g r' q Hg H2). reflexivity.
+  - intros [<-|[]] [H|[]]. symmetry. exact H.
 Qed.
 
-Lemma grid_one_fetch g reload up expire old c0 reqs sched :
+Lemma grid_reach g reload up expire old bulk c0 reqs sched :
   valid_gconf g -> valid_reqs g reqs -> content_ok up c0 -> old_ok expire old ->
-  let s := run (grid_sys_x g true reload up expire old) (init c0 reqs) sched in
-  NoDup (fetched s) /\
-  forall m, In m (fetched s) -> exists req r, In req reqs /\ In r req /\ cached c0 r = false /\ m = g_main g r.
+  Reach (grid_sys_b g true reload up expire old bulk) c0 (fun r => in_grid g r = true) reqs
+        (run (grid_sys_b g true reload up expire old bulk) (init c0 reqs) sched).
 Proof.
-  intros Hg Hr Hc Ho s. split; [apply one_fetch_per_unit; reflexivity|].
-  destruct (grid_reach g reload up expire old c0 reqs sched Hg Hr Hc Ho) as [_ [_ HG]]. fold s in HG.
+  intros Hg Hr Hc Ho. apply reach_run; try rewrite ?grid_queries; cbn [grid_sys_b o_recheck o_members o_main o_single o_up o_expire o_old]; auto.
+  - intros r Hv. apply grid_member_self; assumption.
+  - intros Hs r _. unfold g_main. destruct (g_meta g); [discriminate | reflexivity].
+  - intros r r' q Hv Hv'. rewrite !grid_queries. destruct (bulk && g_meta g).
+    + intros H1 H2. rewrite <- (grid_members_main g r q Hg H1), <- (grid_members_main g r' q Hg H2). reflexivity.
+    + intros [<-|[]] [H|[]]. symmetry. exact H.
+  - intros r Hv. rewrite grid_queries. destruct (bulk && g_meta g); [apply grid_members_nodup | repeat constructor; intros []].
+Qed.
+
+Lemma grid_one_fetch g reload up expire old bulk c0 reqs sched :
+  valid_gconf g -> valid_reqs g reqs -> content_ok up c0 -> old_ok expire old ->
+  let S := grid_sys_b g true reload up expire old bulk in
+  let s := run S (init c0 reqs) sched in
+  NoDup (fetched s) /\
+  forall q, In q (fetched s) ->
+            exists req r, In req reqs /\ In r req /\ cached c0 r = false /\ In q (queries S (g_main g r)).
+Proof.
+  intros Hg Hr Hc Ho S s.
+  destruct (grid_reach g reload up expire old bulk c0 reqs sched Hg Hr Hc Ho) as [_ [HF HG]]. fold S in HF, HG. fold s in HF, HG.
+  split; [apply (fi_nodup _ _ _ HF)|].
   intros m Hm. destruct (g_why _ _ _ _ _ HG m Hm) as [p [pr [r [Hp [Hin [H0 Hmr]]]]]].
   exists (p_req pr), r. repeat split; auto. rewrite <- (g_req _ _ _ _ _ HG). apply in_map. eapply nth_error_In. exact Hp.
 Qed.
@@ -1185,7 +1323,7 @@ Lemma grid_responses_correct g up c0 reqs sched p pr :
 Proof.
   intros Hg Hr Hc s Hp Hd.
   assert (Ho : old_ok false (fun _ : coord => @None Z)) by (intros _ t; reflexivity).
-  destruct (grid_reach g true up false (fun _ => None) c0 reqs sched Hg Hr Hc Ho) as [_ [_ HG]].
+  destruct (grid_reach g true up false (fun _ => None) false c0 reqs sched Hg Hr Hc Ho) as [_ [_ HG]].
   change (grid_sys_x g true true up false (fun _ => None)) with (grid_sys g true true up) in HG. fold s in HG.
   exists (p_req pr). split; [eapply nth_error_req; eassumption|].
   apply (response_complete (grid_sys g true true up) c0 (fun r => in_grid g r = true) ltac:(intros _ t; reflexivity)
@@ -1195,62 +1333,62 @@ Qed.
 (* with an expire timestamp: every requested tile is answered with the image of the upstream or with the
    expired image that was in the cache at the start (a request that waited for the lock keeps the image it
    loaded before) - never without image and never with another tile's image *)
-Lemma grid_responses_answered g up expire old c0 reqs sched p pr r :
+Lemma grid_responses_answered g up expire old bulk c0 reqs sched p pr r :
   valid_gconf g -> valid_reqs g reqs -> content_ok up c0 -> old_ok expire old ->
-  let s := run (grid_sys_x g true true up expire old) (init c0 reqs) sched in
+  let s := run (grid_sys_b g true true up expire old bulk) (init c0 reqs) sched in
   nth_error (procs s) p = Some pr -> p_pc pr = Done -> In r (p_req pr) ->
   exists v, In (r, Some v) (response pr) /\ (v = up r \/ old r = Some v).
 Proof.
-  intros Hg Hr Hc Ho s Hp Hd Hin. destruct (grid_reach g true up expire old c0 reqs sched Hg Hr Hc Ho) as [_ [_ HG]]. fold s in HG.
-  destruct (response_answered (grid_sys_x g true true up expire old) c0 (fun r => in_grid g r = true) _ _ _ _ eq_refl HG Hp Hd r Hin)
+  intros Hg Hr Hc Ho s Hp Hd Hin. destruct (grid_reach g true up expire old bulk c0 reqs sched Hg Hr Hc Ho) as [_ [_ HG]]. fold s in HG.
+  destruct (response_answered (grid_sys_b g true true up expire old bulk) c0 (fun r => in_grid g r = true) _ _ _ _ eq_refl HG Hp Hd r Hin)
     as [v [Hv Hok]].
   exists v. split; [|exact Hok]. unfold response. apply in_map_iff. exists r. rewrite Hv. auto.
 Qed.
 
-Lemma grid_responses_built g up expire old c0 reqs sched p pr :
+Lemma grid_responses_built g up expire old bulk c0 reqs sched p pr :
   valid_gconf g -> valid_reqs g reqs -> content_ok up c0 -> old_ok expire old ->
-  let s := run (grid_sys_x g true true up expire old) (init c0 reqs) sched in
+  let s := run (grid_sys_b g true true up expire old bulk) (init c0 reqs) sched in
   nth_error (procs s) p = Some pr -> p_pc pr = Done ->
   exists req, nth_error reqs p = Some req /\ response_in (cache s) pr = map (fun r => (r, Some (up r))) req.
 Proof.
-  intros Hg Hr Hc Ho s Hp Hd. destruct (grid_reach g true up expire old c0 reqs sched Hg Hr Hc Ho) as [_ [_ HG]]. fold s in HG.
+  intros Hg Hr Hc Ho s Hp Hd. destruct (grid_reach g true up expire old bulk c0 reqs sched Hg Hr Hc Ho) as [_ [_ HG]]. fold s in HG.
   exists (p_req pr). split; [eapply nth_error_req; eassumption|].
-  apply (response_in_complete (grid_sys_x g true true up expire old) c0 (fun r => in_grid g r = true) reqs s p pr eq_refl HG Hp Hd).
+  apply (response_in_complete (grid_sys_b g true true up expire old bulk) c0 (fun r => in_grid g r = true) reqs s p pr eq_refl HG Hp Hd).
 Qed.
 
-Lemma grid_unanswered_is_cached g reload up expire old c0 reqs sched p pr r :
+Lemma grid_unanswered_is_cached g reload up expire old bulk c0 reqs sched p pr r :
   valid_gconf g -> valid_reqs g reqs -> content_ok up c0 -> old_ok expire old ->
-  let s := run (grid_sys_x g true reload up expire old) (init c0 reqs) sched in
+  let s := run (grid_sys_b g true reload up expire old bulk) (init c0 reqs) sched in
   nth_error (procs s) p = Some pr -> p_pc pr = Done -> In r (p_req pr) -> lookup (cache s) r = Some (up r).
 Proof.
-  intros Hg Hr Hc Ho s Hp Hd Hin. destruct (grid_reach g reload up expire old c0 reqs sched Hg Hr Hc Ho) as [_ [_ HG]]. fold s in HG.
+  intros Hg Hr Hc Ho s Hp Hd Hin. destruct (grid_reach g reload up expire old bulk c0 reqs sched Hg Hr Hc Ho) as [_ [_ HG]]. fold s in HG.
   pose proof (done_tiles_cached _ _ _ _ _ _ _ _ HG Hp Hd Hin) as H. destruct (cached_lookup _ _ H) as [v Hv].
   rewrite Hv. f_equal. apply (g_ok _ _ _ _ _ HG _ _ Hv).
 Qed.
 
-Lemma grid_final_cache g reload up expire old c0 reqs sched :
+Lemma grid_final_cache g reload up expire old bulk c0 reqs sched :
   valid_gconf g -> valid_reqs g reqs -> content_ok up c0 -> old_ok expire old ->
-  let s := run (grid_sys_x g true reload up expire old) (init c0 reqs) sched in
+  let s := run (grid_sys_b g true reload up expire old bulk) (init c0 reqs) sched in
   (forall t v, lookup (cache s) t = Some v -> v = up t /\ (cached c0 t = true \/ needed_tile g c0 reqs t)) /\
   (all_done s = true -> forall t, cached c0 t = true \/ needed_tile g c0 reqs t -> lookup (cache s) t = Some (up t)).
 Proof.
-  intros Hg Hr Hc Ho s. pose proof (grid_reach g reload up expire old c0 reqs sched Hg Hr Hc Ho) as HR. fold s in HR.
+  intros Hg Hr Hc Ho s. pose proof (grid_reach g reload up expire old bulk c0 reqs sched Hg Hr Hc Ho) as HR. fold s in HR.
   pose proof HR as [_ [_ HG]]. split.
-  - intros t v Hl. apply (cache_sound _ _ _ _ _ _ _ HG Hl).
+  - intros t v Hl. apply (cache_sound _ c0 (fun r => in_grid g r = true) (grid_HQ g true reload up expire old bulk Hg) reqs s t v HG Hl).
   - intros Hall t Ht.
     assert (H : cached (cache s) t = true).
-    { eapply (cache_complete (grid_sys_x g true reload up expire old)); [|exact HR | exact Hall | exact Ht].
-      cbn [grid_sys_x o_members o_main]. intros r u _ Hu. apply grid_members_main; assumption. }
+    { eapply (cache_complete (grid_sys_b g true reload up expire old bulk)); [|exact HR | exact Hall | exact Ht].
+      cbn [grid_sys_b o_members o_main]. intros r u _ Hu. apply grid_members_main; assumption. }
     destruct (cached_lookup _ _ H) as [v Hv]. rewrite Hv. f_equal. apply (g_ok _ _ _ _ _ HG _ _ Hv).
 Qed.
 
-Lemma grid_refused g reload up expire old c0 reqs sched p k :
+Lemma grid_refused g reload up expire old bulk c0 reqs sched p k :
   valid_gconf g -> valid_reqs g reqs -> content_ok up c0 -> old_ok expire old ->
-  let s := run (grid_sys_x g true reload up expire old) (init c0 reqs) sched in
-  snd (step (grid_sys_x g true reload up expire old) s p) = OLock k false ->
+  let s := run (grid_sys_b g true reload up expire old bulk) (init c0 reqs) sched in
+  snd (step (grid_sys_b g true reload up expire old bulk) s p) = OLock k false ->
   exists q prq m, q <> p /\ nth_error (procs s) q = Some prq /\ holds (p_pc prq) = Some m /\ g_key g m = k.
 Proof.
-  intros Hg Hr Hc Ho s Hobs. destruct (grid_reach g reload up expire old c0 reqs sched Hg Hr Hc Ho) as [HL _]. fold s in HL.
+  intros Hg Hr Hc Ho s Hobs. destruct (grid_reach g reload up expire old bulk c0 reqs sched Hg Hr Hc Ho) as [HL _]. fold s in HL.
   apply (refused_means_held _ _ _ _ HL Hobs).
 Qed.
 
@@ -1264,19 +1402,19 @@ Lemma holder_not_waiting S s q pr m k :
   nth_error (procs s) q = Some pr -> holds (p_pc pr) = Some m -> snd (step S s q) <> OLock k false.
 Proof.
   intros Hq Hm. rewrite (step_lstep _ _ _ _ Hq). unfold lstep.
-  destruct (p_pc pr) as [todo|todo|t rtodo|m' rest|m' todo rest|m' rest|m' todo rest|m' rest|m' a rest|m' todo rest|];
+  destruct (p_pc pr) as [todo|todo|t rtodo|m' rest|m' todo rest|m' todo rest|m' todo rest|m' rest|m' a rest|m' todo rest|];
     try discriminate Hm; try destruct todo as [|t' todo]; cbn [snd]; try discriminate.
   - destruct (cached (cache s) t'); discriminate.
   - destruct (has_src (p_src pr) m'); discriminate.
 Qed.
 
-Lemma grid_no_deadlock g reload up expire old c0 reqs sched p k :
+Lemma grid_no_deadlock g reload up expire old bulk c0 reqs sched p k :
   valid_gconf g -> valid_reqs g reqs -> content_ok up c0 -> old_ok expire old ->
-  let s := run (grid_sys_x g true reload up expire old) (init c0 reqs) sched in
-  snd (step (grid_sys_x g true reload up expire old) s p) = OLock k false ->
-  exists q, q <> p /\ forall k', snd (step (grid_sys_x g true reload up expire old) s q) <> OLock k' false.
+  let s := run (grid_sys_b g true reload up expire old bulk) (init c0 reqs) sched in
+  snd (step (grid_sys_b g true reload up expire old bulk) s p) = OLock k false ->
+  exists q, q <> p /\ forall k', snd (step (grid_sys_b g true reload up expire old bulk) s q) <> OLock k' false.
 Proof.
-  intros Hg Hr Hc Ho s Hobs. destruct (grid_refused g reload up expire old c0 reqs sched p k Hg Hr Hc Ho Hobs) as [q [prq [m [Hn [Hq [Hm _]]]]]].
+  intros Hg Hr Hc Ho s Hobs. destruct (grid_refused g reload up expire old bulk c0 reqs sched p k Hg Hr Hc Ho Hobs) as [q [prq [m [Hn [Hq [Hm _]]]]]].
   exists q. split; [exact Hn|]. intros k'. eapply holder_not_waiting; eassumption.
 Qed.
 
@@ -1288,7 +1426,7 @@ Definition meta_grid : gconf := mk_gconf true 2 2 false [(1, 1); (2, 2); (3, 3)]
 Definition t111 : coord := (1, 1, 1)%Z.
 
 (* two requesters of one uncached tile, protocol without the re-check: both miss, both fetch *)
-Definition norecheck_schedule : list nat := [0; 0; 0; 1; 1; 1; 0; 0; 0; 0; 0; 0; 1; 1; 1; 1; 1; 1]%nat.
+Definition norecheck_schedule : list nat := [0; 0; 0; 1; 1; 1; 0; 0; 0; 0; 0; 0; 0; 1; 1; 1; 1; 1; 1; 1]%nat.
 Lemma no_recheck_two_fetches :
   let s := run (grid_sys single_grid false false up0) (init [] [[t111]; [t111]]) norecheck_schedule in
   all_done s = true /\ fetched s = [t111; t111].
@@ -1301,7 +1439,7 @@ Example recheck_one_fetch :
 Proof. vm_compute. repeat split; reflexivity. Qed.
 
 (* before the repair of F22: requester 0 looks (miss), requester 1 creates the tile, requester 0 looks again (hit) and answers without image *)
-Definition race_schedule : list nat := [0; 1; 1; 1; 1; 1; 1; 1; 1; 1; 1; 0; 0; 0]%nat.
+Definition race_schedule : list nat := [0; 1; 1; 1; 1; 1; 1; 1; 1; 1; 1; 1; 0; 0; 0]%nat.
 Lemma race_unanswered :
   let s := run (grid_sys single_grid true false up0) (init [] [[t111]; [t111]]) race_schedule in
   all_done s = true /\ map response (procs s) = [[(t111, None)]; [(t111, Some (up0 t111))]].
@@ -1351,6 +1489,14 @@ Example nv_expired :
 Proof. vm_compute. repeat split; reflexivity. Qed.
 Example nv_old_ok : old_ok true old1.
 Proof. intros H. discriminate. Qed.
+
+(* bulk meta tiles: two requests for tiles of meta tile (0,0,2): four upstream requests (one per tile), each once *)
+Example nv_bulk :
+  let S := grid_sys_b meta_grid true true up0 false (fun _ => None) true in
+  let s := run S (init [] [[(0, 0, 2)]; [(1, 1, 2)]]%Z) (round_robin 2 30) in
+  all_done s = true /\ List.rev (fetched s) = [(0, 1, 2); (1, 1, 2); (0, 0, 2); (1, 0, 2)]%Z /\
+  map (response_in (cache s)) (procs s) = [[((0, 0, 2), Some (up0 (0, 0, 2)))]; [((1, 1, 2), Some (up0 (1, 1, 2)))]]%Z.
+Proof. vm_compute. repeat split; reflexivity. Qed.
 
 Example nv_lock_name :
   lock_name (list_ascii_of_string "ab12") (12, 0, 3)%Z = list_ascii_of_string "ab12-12-0-3.lck".
